@@ -120,6 +120,8 @@ GNStruct(ptr, f) == [k |-> "nstruct", ptr |-> ptr, f |-> f]
 (* the value behind pointers and named types *)
 RECURSIVE Base(_)
 Base(g) == CASE g.k = "ptr" -> Base(g.to) [] g.k = "named" -> Base(g.base) [] g.k = "nilptr" -> [k |-> "nil"] [] OTHER -> g
+(* [k |-> "pstruct", ptr, f]: struct PS { A *int; B *int8; ... J *uint64; K *float32; L *float64 } *)
+PSKeys == <<<<65>>, <<66>>, <<67>>, <<68>>, <<69>>, <<70>>, <<71>>, <<72>>, <<73>>, <<74>>, <<75>>, <<76>>>>
 NSKeys == <<<<65>>, <<66>>, <<67>>, <<68>>, <<69>>, <<70>>, <<71>>, <<72>>, <<73>>, <<74>>, <<76>>>>      \* A .. J, L
 
 GStruct(ptr, a, b, c, f, any, hid) ==
@@ -157,6 +159,7 @@ ToJS(g) ==
       [] g.k = "named" -> ToJS(g.base)
       [] g.k = "imap" -> JObj([i \in 1..Len(g.keys) |-> DigitsZ(g.keys[i])], [i \in 1..Len(g.vals) |-> ToJS(g.vals[i])])
       [] g.k = "nstruct" -> JObj(NSKeys, [i \in 1..Len(g.f) |-> ToJS(g.f[i])])
+      [] g.k = "pstruct" -> JObj(PSKeys, [i \in 1..Len(g.f) |-> ToJS(g.f[i])])
       [] g.k = "bool" -> BoolV(g.b)
       [] g.k \in IntKinds -> NumV(ToDouble(g.z))
       [] g.k \in FltKinds -> NumV(g.n)
@@ -718,6 +721,7 @@ ZeroElem(k) == IF k = "iface" THEN GX(XNil) ELSE ZeroOf(k)
 (* [op |-> "goappend", g].  Result [st, thr, ret].                           *)
 SR(st, thr, ret) == [st |-> st, thr |-> thr, ret |-> ret]
 Upd(seq, i, x) == [seq EXCEPT ![i] = x]
+RECURSIVE SliceStep(_, _)
 SliceStep(st, op) ==
     LET n == Len(st.js)  field == st.mode = "field"
         lost == field /\ D("D16_slice_field_growth_not_written_back")       \* goSliceObject.setValue/setLength: reflect.Append / MakeSlice result kept in the wrapper only
@@ -763,6 +767,19 @@ SliceStep(st, op) ==
                  IN  IF lost THEN SR(st, "", IntV(op.n))
                      ELSE IF field THEN SR(grow(grown), "", IntV(op.n))
                      ELSE SR([st EXCEPT !.js = grown, !.done = TRUE], "", IntV(op.n))
+      \* s.length = v for an arbitrary value v: 15.4.5.1 step 3: ToUint32(v) must equal ToNumber(v), otherwise RangeError.
+      \* otto takes ToInteger(v) as a Go int: a negative or enormous result panics inside reflect / the allocator (thrown
+      \* to the script as a bare string), a fraction, NaN or a non-numeric value silently truncates (1.5 -> 1, NaN -> 0).
+      [] op.op = "jssetlenv" ->
+            LET x == NumOfJ(op.v)
+                valid == IsFinite(x) /\ (IsInteger(x) \/ IsZero(x)) /\ NumCmp(x, I(0)) >= 0 /\ NumCmp(x, P2Z(32)) < 0
+                m == I64OfNum(x)
+                plain(k) == [op |-> "jssetlen", n |-> k]
+            IN  IF D("D16_slice_length_invalid_value_not_rangeerror")
+                THEN (IF NumCmp(m, I(0)) < 0 \/ NumCmp(m, I(1000000)) > 0 THEN SR(st, "value", Undef)
+                      ELSE LET r == SliceStep(st, plain(m.v)) IN [r EXCEPT !.ret = IF r.thr = "" THEN op.v ELSE r.ret])
+                ELSE IF ~valid THEN SR(st, "RangeError", Undef)
+                ELSE LET r == SliceStep(st, plain(ZOfNum(x).v)) IN [r EXCEPT !.ret = IF r.thr = "" THEN op.v ELSE r.ret]
       \* 15.4.4.9 shift and 15.4.4.12 splice(0, 1): the elements move down one place, the last one is deleted, length - 1.
       \* On a by-value slice the moves and the delete hit the shared elements, only the script's length shrinks.
       [] op.op \in {"jsshift", "jssplice"} ->
@@ -846,6 +863,13 @@ NilableKinds == {"ptr:inner", "slice:int8", "map:int8"}
 NilVal(k) == [k |-> "nilval", of |-> k]
 MapWriteStep(st, op) ==
     IF st.k \notin NilableKinds THEN MapStep(st, op)
+    ELSE IF st.k = "ptr:inner" /\ op.v.t \notin {"undef", "null"}
+         THEN \* any other value for a pointer element: an object literal naming fields builds the struct (as for a *T parameter), everything else is a TypeError
+              (IF D("D16_element_write_pointer_kind_value_panics") THEN SR(st, "uncaught:TypeError", Undef)
+               ELSE IF op.v.t = "obj" /\ op.v.keys = <<<<78>>>>
+                    THEN (LET r == ConvertParam(op.v.vals[1], TK("int"))
+                          IN  IF r.thr = "" THEN SR(MapPut(st, op.key, [k |-> "innerval", N |-> r.g.z]), "", op.v) ELSE SR(st, r.thr, Undef))
+               ELSE SR(st, "TypeError", Undef))
     ELSE IF st.k = "ptr:inner" /\ D("D16_element_write_pointer_kind_panics")
          THEN SR(st, "uncaught:TypeError", Undef)       \* toReflectValue has no Ptr case: its final panic(fmt.Errorf(...)) is a plain Go error
     ELSE IF D("D16_element_write_unchecked_conversion") \/ st.k = "ptr:inner"
@@ -861,7 +885,10 @@ XJSON(x) == CASE x.x = "nil" -> JNull [] x.x = "bool" -> [j |-> "bool", b |-> x.
               [] x.x = "str" -> [j |-> "str", s |-> x.s]
               [] x.x = "arr" -> [j |-> "arr", items |-> [i \in 1..Len(x.items) |-> XJSON(x.items[i])]]
               [] x.x = "obj" -> [j |-> "obj", keys |-> x.keys, vals |-> [i \in 1..Len(x.vals) |-> XJSON(x.vals[i])]]
-ElemJSON(g) == IF g.k = "nilval" THEN JNull ELSE IF g.k = "x" THEN XJSON(g.x) ELSE GoJSON(g)
+InnerValJS(g) == JObj(<<<<78>>, <<83, 105, 122, 101, 115>>, <<84, 97, 103, 115>>>>, <<NumV(g.N), JArr(<<>>), JArr(<<>>)>>)      \* N, Sizes, Tags
+ElemJSON(g) == IF g.k = "nilval" THEN JNull ELSE IF g.k = "x" THEN XJSON(g.x)
+               ELSE IF g.k = "innerval" THEN [j |-> "obj", keys |-> <<<<78>>, <<83, 105, 122, 101, 115>>, <<84, 97, 103, 115>>>>, vals |-> <<[j |-> "num", n |-> g.N], JNull, JNull>>]
+               ELSE GoJSON(g)
 NilValJS(g) == CASE g.of = "ptr:inner" -> Undef [] g.of = "slice:int8" -> JArr(<<>>) [] g.of = "map:int8" -> JObj(<<>>, <<>>)
 (* what is observed of one key afterwards: `key in m`, Object.keys, m[key], the Go map (presence and value), the member in MarshalJSON *)
 MapKeyObs(st, key) ==
@@ -869,7 +896,7 @@ MapKeyObs(st, key) ==
         present == ix # <<>>
         val == IF present THEN st.vals[ix[1]] ELSE [k |-> "absent"]
     IN  [has |-> present, keys |-> st.keys,
-         val |-> IF ~present THEN Undef ELSE IF val.k = "nilval" THEN NilValJS(val) ELSE ElemJS(val),
+         val |-> IF ~present THEN Undef ELSE IF val.k = "nilval" THEN NilValJS(val) ELSE IF val.k = "innerval" THEN InnerValJS(val) ELSE ElemJS(val),
          go |-> val, json |-> IF present THEN ElemJSON(val) ELSE [j |-> "absent"]]
 
 (* map[int]string: a property name that is no integer cannot be a key       *)
